@@ -226,27 +226,75 @@ def mutants_of(fn, limit=None):
     return out
 
 
-def _canary_task(arg):
-    i, timeout_ms = arg
-    reg, contract, m = _G['canary'][i]
-    fr = verify_function(reg, contract, timeout_ms, fn_ast=m.fn, nproc=1, stop_on_first=True)
-    if fr.error:
-        return i, 'killed', f'{fr.error[0]}: {fr.error[1][:100]}'
-    f = fr.failed
-    if f:
-        return i, 'killed', f[0]['name']
-    return i, 'survived', ''
+def _canary_child(i, timeout_ms, conn):
+    """generate + solve sequentially inside one process; stop at the first obligation that is not discharged"""
+    try:
+        reg, contract, m = _G['canary'][i]
+        try:
+            ex = Exec(reg, contract, fn_ast=m.fn)
+            vcs = ex.run()
+        except (Unsupported, source.SourceError) as e:
+            conn.send((i, 'killed', f'outside the subset: {str(e)[:100]}'))
+            return
+        _G['vcs'] = vcs
+        for k, vc in enumerate(vcs):
+            if vc.kind == 'cover':
+                continue
+            r = solve.discharge(vc, timeout_ms, fallbacks=False)
+            if r['verdict'] != 'unsat':
+                conn.send((i, 'killed', r['name']))
+                return
+        conn.send((i, 'survived', ''))
+    except BaseException as e:     # noqa
+        try:
+            conn.send((i, 'error', repr(e)[:200]))
+        except Exception:          # noqa
+            pass
+    finally:
+        conn.close()
+        os._exit(0)
 
 
-def run_canaries(tasks, timeout_ms, nproc=NPROC):
-    """tasks: [(reg, contract, Mutant)] -> list of (desc, status, killer)"""
+def run_canaries(tasks, timeout_ms, nproc=NPROC, hard_s=None):
+    """tasks: [(reg, contract, Mutant)] -> list of (function, mutant, status, killer)"""
     if not tasks:
         return []
     _G['canary'] = tasks
     ctx = mp.get_context('fork')
-    with ctx.Pool(min(nproc, len(tasks))) as pool:
-        res = pool.map(_canary_task, [(i, timeout_ms) for i in range(len(tasks))], chunksize=1)
-    return [(tasks[i][1].name, tasks[i][2].desc, s, k) for i, s, k in res]
+    hard = hard_s or (timeout_ms / 1000.0 * 6 + 60)
+    res = {}
+    pending = list(range(len(tasks)))
+    active = {}
+    while pending or active:
+        while pending and len(active) < nproc:
+            i = pending.pop(0)
+            pr, pw = ctx.Pipe(duplex=False)
+            p = ctx.Process(target=_canary_child, args=(i, timeout_ms, pw))
+            p.start()
+            pw.close()
+            active[i] = (p, pr, time.time())
+        done = []
+        for i, (p, pr, t0) in active.items():
+            if pr.poll(0):
+                try:
+                    res[i] = pr.recv()
+                except EOFError:
+                    res[i] = (i, 'error', 'canary process died')
+                done.append(i)
+            elif not p.is_alive():
+                res[i] = (i, 'error', f'canary process exited with {p.exitcode}')
+                done.append(i)
+            elif time.time() - t0 > hard:
+                p.kill()
+                res[i] = (i, 'killed', 'not verified within the hard time limit')
+                done.append(i)
+        for i in done:
+            p, pr, _ = active.pop(i)
+            p.join(1)
+            pr.close()
+        if not done:
+            time.sleep(0.01)
+    return [(tasks[i][1].name, tasks[i][2].desc, res[i][1], res[i][2]) for i in range(len(tasks))]
 
 
 # ---- known findings / baseline --------------------------------------------------------------------------------------
